@@ -5,7 +5,9 @@ import (
 	"encoding/json"
 	"fmt"
 	"math"
+	"os"
 	"reflect"
+	"runtime"
 	"runtime/debug"
 	"sort"
 	"strings"
@@ -29,7 +31,7 @@ import (
 const c06Rule = "five entry points (container file -> ReadFile, record body -> Codec.Read and Codec.Skip, schema JSON -> SchemaFromString, decoder construction -> Schema.Codec of parsed schemas against catalogue targets and of arbitrary generated schemas against arbitrary generated Go types followed by a decode, timestamp text); " +
 	"inputs: structure-aware mutations of valid encodings (every length / count / block size / union selector / metadata length / file block count / file block length token located by the reference decoder's spans is replaced by one of " +
 	"-1, MinInt64, 0, 1, v+1, 2^31, 2^32, 2^62-1, MaxInt64, an 11-byte varint, a truncated varint; count and block size of a size-prefixed block set together to one large value), truncation at a drawn byte, single-bit flips, header variants (no codec, unknown codec, snappy block < 4 bytes), random bytes; " +
-	"evaluated in a worker subprocess (6 GiB address space): verdict = value or error, no panic, no process death, answer within 20 s, growth of the heap footprint (MemStats.HeapSys) <= 32 MiB + 4096 x len(input) + 64 x (bytes the file's blocks expand to); " +
+	"evaluated in a worker subprocess (6 GiB address space): verdict = value or error, no panic, no process death, answer within 20 s, growth of the heap footprint (MemStats.HeapSys) <= 32 MiB + 4096 x len(input) + 64 x (bytes the file's blocks expand to), bytes allocated in total (garbage included) <= 128 MiB + 4096 x (len(input) + bytes the blocks expand to); " +
 	"arrays whose items encode to zero bytes and zero-width top-level records are excluded (legal unbounded amplification); " +
 	"non-trivial = the input differs from a valid encoding in exactly one token, or is a strict prefix of one; distinct by (entry point, input bytes)"
 
@@ -61,6 +63,10 @@ type c06Big struct {
 	// record's bank; the file is read twice. (Site "count" alters the first array's
 	// item count to Claim.)
 	Items int `json:"items,omitempty"`
+	// BlockItems > 0 (with Items): every array is written as blocks of BlockItems
+	// items, alternately plain and size-prefixed — legal, and what a streaming
+	// writer that cannot buffer an array produces.
+	BlockItems int `json:"block_items,omitempty"`
 }
 
 var c06ItemsTarget = spec.Struct(spec.FieldSpec{Go: "A", JSON: "a", T: spec.Slice(spec.Ptr(spec.Struct(spec.FieldSpec{Go: "X", JSON: "x", T: spec.T("int64")})))})
@@ -76,7 +82,28 @@ func buildItemsFile(b c06Big) ([]byte, error) {
 		if bi == 0 && b.Site == "count" {
 			count = b.Claim
 		}
-		body := ref.AppendLong(make([]byte, 0, 4*n+16), count)
+		var body []byte
+		if b.BlockItems > 0 {
+			body = make([]byte, 0, 8*n+16)
+			for i, blk := 0, 0; i < n; blk++ {
+				k := min(b.BlockItems, n-i)
+				var items []byte
+				for j := 0; j < k; j++ {
+					items = ref.AppendLong(items, int64((i+j)*7+bi))
+				}
+				if blk%2 == 1 {
+					body = ref.AppendLong(ref.AppendLong(body, int64(-k)), int64(len(items)))
+				} else {
+					body = ref.AppendLong(body, int64(k))
+				}
+				body = append(body, items...)
+				i += k
+			}
+			body = ref.AppendLong(body, 0)
+			fs.Blocks = append(fs.Blocks, ref.Block{Count: 1, Payload: body})
+			continue
+		}
+		body = ref.AppendLong(make([]byte, 0, 4*n+16), count)
 		if count < 0 {
 			body = ref.AppendLong(body, 1) // sized block form: the byte size follows a negative count (not checked by readers that do not skip)
 		}
@@ -169,6 +196,19 @@ func runC06InWorker(c c06Case) error {
 	// by the parent is then what the input needs at a time, not how far the
 	// collector happened to lag behind short-lived garbage
 	defer debug.SetGCPercent(debug.SetGCPercent(10))
+	if os.Getenv("VERIF_C06_NOLIMIT") == "" {
+		// and a soft memory limit a little above what is in use now: short-lived garbage
+		// is collected before the footprint grows past it (however far a starved
+		// collector lags behind on a saturated machine), memory the input really needs
+		// at one time — one huge allocation, a large live set — grows it all the same
+		var ms runtime.MemStats
+		runtime.ReadMemStats(&ms)
+		allow := int64(16<<20) + 2048*int64(len(c.Data))
+		if c.Big != nil {
+			allow = int64(32<<20) + 8*int64(c.Big.Pad) + 128*int64(c.Big.Items)
+		}
+		defer debug.SetMemoryLimit(debug.SetMemoryLimit(int64(ms.Sys-ms.HeapReleased) + allow))
+	}
 	if c.Big != nil && c.Big.Items > 0 {
 		data, err := buildItemsFile(*c.Big)
 		if err != nil {
@@ -307,6 +347,9 @@ func c06Verdict(w *iso.Worker, c c06Case) error {
 	case resp.Err != "":
 		return fmt.Errorf("%s", resp.Err)
 	}
+	if os.Getenv("VERIF_C06_PRINT") != "" {
+		fmt.Fprintf(os.Stderr, "c06: %s input of %d bytes: heap growth %d KiB, %d KiB allocated, %d ms\n", c.Entry, len(c.Data), resp.HeapGrowth>>10, resp.TotalAlloc>>10, resp.ElapsedNs/1e6)
+	}
 	limit := int64(32<<20) + 4096*int64(len(c.Data))
 	if c.Entry == "file" && c.Big == nil {
 		// a compressed block has to be expanded before it can be decoded, and one wire
@@ -321,6 +364,26 @@ func c06Verdict(w *iso.Worker, c c06Case) error {
 	if c.Big != nil {
 		// incompressible content of known size: a handful of copies of the input is all a reader needs
 		limit = int64(64<<20) + 16*int64(c.Big.Pad) + 256*int64(c.Big.Items)
+	}
+	// what is allocated in total (garbage included) stays proportional as well: a reader
+	// that copies everything it has decoded so far once per block of an array allocates,
+	// and spends, the square of the input
+	expanded := int64(0)
+	if c.Entry == "file" && c.Big == nil {
+		if lay, _ := ref.ParseFile(c.Data); len(lay.Blocks) > 0 {
+			for _, bl := range lay.Blocks {
+				expanded += int64(len(bl.Decompressed))
+			}
+		}
+	}
+	totalLimit := int64(128<<20) + 4096*(int64(len(c.Data))+expanded)
+	if c.Big != nil {
+		totalLimit = int64(256<<20) + 64*int64(c.Big.Pad) + 4096*int64(c.Big.Items)
+	}
+	if resp.TotalAlloc > totalLimit {
+		w.Restart()
+		return fmt.Errorf("%s input (%s) of %d bytes (blocks expanding to %d) made the reader allocate %d MiB in total (limit %d MiB): not proportional to the input",
+			c.Entry, c.What, len(c.Data), expanded, resp.TotalAlloc>>20, totalLimit>>20)
 	}
 	if resp.HeapGrowth > limit {
 		w.Restart()
@@ -923,11 +986,25 @@ func TestC06Big(t *testing.T) {
 		step = 9
 		off = int(((seedVal() % 9) + 9) % 9)
 	}
+	// valid files whose arrays arrive in very many small blocks (every run)
+	var always []c06Big
+	for ci, codec := range []string{"null", "deflate", "snappy"} {
+		always = append(always, c06Big{Codec: codec, Site: "none", Items: 20000 + 1000*int(seedVal()%7), BlockItems: 1 + (ci+int(seedVal()))%3})
+		if thorough() {
+			always = append(always, c06Big{Codec: codec, Site: "none", Items: 120000, BlockItems: 1}, c06Big{Codec: codec, Site: "none", Items: 60000, BlockItems: 13})
+		}
+	}
+	var picked []c06Big
 	for i := off; i < len(grid); i += step {
-		b := grid[i]
+		picked = append(picked, grid[i])
+	}
+	for _, b := range append(picked, always...) {
 		c := c06Case{Entry: "file", What: fmt.Sprintf("%d KiB %s file, %s := %d", b.Pad>>10, b.Codec, b.Site, b.Claim), Big: &b}
 		if b.Items > 0 {
 			c.What = fmt.Sprintf("%s file of records with %d, 1, %d, 3 pointer items read twice by a consumer closing its banks, %s := %d", b.Codec, b.Items, b.Items/2, b.Site, b.Claim)
+		}
+		if b.BlockItems > 0 {
+			c.What = fmt.Sprintf("valid %s file of records with %d, 1, %d, 3 pointer items, every array in blocks of %d items", b.Codec, b.Items, b.Items/2, b.BlockItems)
 		}
 		col.Record(c, b.Site != "none", "entry_bigfile", "big_"+b.Site)
 		if err := c06Verdict(w, c); err != nil {
